@@ -9,8 +9,9 @@
     - the geometric kernels: what is proved for each of them (d);
     - rescaling a wall's normal / up vector by positive factors changes no BRDF direction (e).
     NOT carried by any theorem (NOT_CARRIED in harness/props/C17.py): the 0.5 %-of-peak bound under
-    axis permutations, float rounding, Stokes form factors under rotations (refuted for the code
-    by its 1e-3 m cut-off: known finding C05/similarity_cutoff), the Nusselt branch,
+    axis permutations, float rounding, Stokes form factors under rotations (false for the pinned
+    code with its 1e-3 m cut-off: finding C05/similarity_cutoff, since repaired in /repo; not
+    proved for the cut-off-free sum either), the Nusselt branch,
     [point_in_polygon] under rotations (the visibility statement is conditional on it). *)
 From Coq Require Import List Arith Bool Permutation.
 Import ListNotations.
@@ -198,7 +199,7 @@ Print Assumptions C17_distances_scene.
 
 (** (d) C17_kernels (PARTIAL: what the kernel developments prove).  Point-to-patch factor: both
     modes, translations and all linear isometries (C04).  Stokes form factor: translations, with
-    the code's cut-off in place (C05); rotations are NOT carried (false for the code: cut-off).
+    the code's cut-off in place (C05); rotations are NOT carried.
     Tiling: translation equivariant (C08). *)
 Theorem C17_kernels_partial {T} {O : Ops T} {RL : RingLaws T} {OL : OrderLaws T} {DL : DivLaws T}
     (M : @mat T) (thr cut : T) (recv : bool) (t pt : @vec T) (pts pi pj : list (@vec T)) (a : T)
